@@ -153,13 +153,13 @@ Output file is an unaligned set of sequences in fasta.
 		phasedcodonseqs := align.NewSeqBag(align.UNKNOWN)
 		phasedseqsaa := align.NewSeqBag(align.UNKNOWN)
 
-		for p := range phased {
+		var inorder []align.PhasedSequence
+		if inorder, err = phasedInInputOrder(phased, inseqs); err != nil {
+			io.LogError(err)
+			return
+		}
+		for _, p := range inorder {
 			var stops []int
-			if p.Err != nil {
-				err = p.Err
-				io.LogError(p.Err)
-				return
-			}
 			if p.Removed {
 				fmt.Fprintf(logf, "%s\tN/A\tRemoved\tN/A\tN/A\tN/A\n", p.NtSeq.Name())
 			} else {
